@@ -2,6 +2,7 @@
 #include <utility>
 #include <string>
 #include <stdexcept>
+#include <limits>
 
 namespace OP2Utility::Archive
 {
@@ -89,6 +90,12 @@ namespace OP2Utility::Archive
 	void AdaptiveHuffmanTree::UpdateCodeCount(NodeData code)
 	{
 		VerifyNodeDataInBounds(code);
+
+		// The root's count is the sum of all counts. Once it is at the maximum a NodeType can hold, another
+		// update would wrap it to 0, break the count ordering, and send the block leader scan off the array
+		if (subtreeCount[rootNodeIndex] == std::numeric_limits<NodeType>::max()) {
+			throw std::runtime_error("AdaptiveHuffmanTree cannot record more code updates: count would overflow");
+		}
 
 		// Get the index of the node containing this code
 		NodeIndex curNodeIndex = parentIndex[code + nodeCount];
